@@ -185,6 +185,8 @@ func (t *tapeRand) Read(p []byte) (int, error) {
 	return len(p), nil
 }
 
+var e3IDs = []string{"id0", "id1", "id2", "id3", "id4", "id5", "org1/alice", "org2/alice", "alice", "did:key:z6Mk", "did:web:z6Mk", "z6Mk"}
+
 func RunE3(r *Run) {
 	saved := cryptorand.Reader
 	cryptorand.Reader = &tapeRand{newXoshiro(uint64(r.Choose("key-entropy", 1<<30)))}
@@ -208,7 +210,8 @@ func RunE3(r *Run) {
 		}
 		i := r.Choose("inst", len(w.inst))
 		k := w.inst[i]
-		id := fmt.Sprintf("id%d", r.Choose("id", 8))
+		// ids are arbitrary strings: flat names, paths and URIs whose last component coincides
+		id := e3IDs[r.Choose("id", len(e3IDs))]
 		fault := faulty && r.Choose("fault?", 8) == 0
 		switch op {
 		case 1, 2: // create (only ids that do not exist: a second create replaces the key by design)
